@@ -346,6 +346,7 @@ def one_sweep(ctx, e, P, st, spec_extra, mpi, poison=0, cinds_form=0, suffix='')
         spec['warm_by_rank'] = [(loc[r][0], loc[r][1], [list(c) if isinstance(c, list) else c for c in cinds]
                                  if cinds_form == 1 else list(cinds)) for r in range(P.N)]
         snaps = [(a.copy(), b.copy()) for a, b in loc]
+        cinds_snaps = [[list(c) if isinstance(c, list) else c for c in w_[2]] for w_ in spec['warm_by_rank']] if cinds_form == 1 else None
         if props is not None:
             spec['proposals'] = True
             spec['proposals_local'] = [global_to_rank_local(P, p) for p in props]
@@ -353,6 +354,12 @@ def one_sweep(ctx, e, P, st, spec_extra, mpi, poison=0, cinds_form=0, suffix='')
         for r in range(P.N):
             require(C.same(loc[r][0], snaps[r][0]) and C.same(loc[r][1], snaps[r][1]), 'input_modified',
                     'rank %d: warm-start labels/distances arrays were modified' % r)
+            if cinds_snaps is not None:
+                # (trajectory, frame) pairs are translated to (rank, local frame) for internal use: the caller's list keeps
+                # saying what the caller wrote (it may start another run from it)
+                now = [list(c) if isinstance(c, (list, tuple)) else c for c in spec['warm_by_rank'][r][2]]
+                require(now == cinds_snaps[r], 'input_modified', lambda: 'rank %d: the list of (trajectory, frame) centre pairs passed in '
+                        'was rewritten: %s -> %s' % (r, cinds_snaps[r], now))
     else:
         lab, dist = st.labels.copy(), st.distances.copy()
         spec['warm'] = (lab, dist, cinds)
